@@ -4,6 +4,7 @@ mod cache_props;
 mod edit_props;
 mod refcomp;
 mod cnf_props;
+mod cli_props;
 mod common;
 mod conc_props;
 mod core_props;
